@@ -1,5 +1,8 @@
 (* C20 — Huffman code construction and bit I/O. Models: Prefix/Code.v
    (GenerateLengths with any limit, GeneratePrefixes), bit fields as bit lists. *)
+From Coq Require Import Sorting.Sorted Sorting.Permutation.
+From V Require Import Prefix.GenPrefixesThms Prefix.GenLengthsThms Prefix.GenPipelineThms.
+From V Require Import Prefix.WriterImpl Prefix.WriterSpec Prefix.WriterThms.
 From V Require Import Prefix.ReaderImpl Prefix.ReaderSpec Prefix.ReaderThms.
 From V Require Import Base.Prelude Base.Prog Prefix.Code Prefix.Thms Base.ProgThms Flate.Spec Flate.Canon.
 
@@ -64,3 +67,69 @@ Print Assumptions bit_reader_refines_bit_stream_buffered.
 Theorem bit_reader_refines_bit_stream_bytereader : reader_refines_bytereader.
 Proof. exact reader_refines_bytereader_holds. Qed.
 Print Assumptions bit_reader_refines_bit_stream_bytereader.
+
+(* The implementation-level model of prefix.Writer (64-bit bit buffer, the 512-byte staging
+   buffer with `cntBuf -= cnt` after a short write, PushBits' wide 8-byte store, the per-byte
+   bit reversal for big-endian order, Flush, raw Write, Try* variants; validated against the
+   real Writer over scripted sinks on every run) REFINES the abstract bit list. *)
+(* (c) Writer then Reader, both at the implementation level: any history of WriteBits /
+   WriteSymbol / WritePads / raw Write ending in WritePads; Flush is read back value for
+   value by the Reader model, both bit orders, both source paths, every source script *)
+Theorem bit_io_roundtrip_implementation_level : writer_reader_roundtrip.
+Proof. exact writer_reader_roundtrip_holds. Qed.
+Print Assumptions bit_io_roundtrip_implementation_level.
+
+(* GenerateLengths, for EVERY frequency table: counts ascending (as the Go code demands), at
+   least two distinct symbols, a limit that can hold the alphabet (n <= 2^maxBits; necessary:
+   gl_correct_capacity), any counts - including sums that wrap the uint32 node weights:
+   the result is never a panic and never Invalid; it lists the symbols in input order, every
+   length is in 1..maxBits, the Kraft sum is exactly one (complete code), and lengths are
+   non-increasing along the (ascending) input: [gl_correct]. The length-limiting phase
+   (treeRotate on a uint32 histogram with transient wrap-around) is covered. *)
+Theorem gen_lengths_sound_for_every_frequency_table : forall maxBits codes,
+  (2 <= length codes)%nat ->
+  StronglySorted N.le (map fst codes) ->
+  NoDup (map snd codes) ->
+  N.of_nat (length codes) <= 2 ^ maxBits ->
+  N.of_nat (length codes) < 2 ^ 32 ->
+  exists lens, gen_lengths maxBits codes = GLOk lens /\ gl_correct maxBits codes lens.
+Proof. exact gen_lengths_correct. Qed.
+Print Assumptions gen_lengths_sound_for_every_frequency_table.
+
+(* no longer code for a more frequent symbol *)
+Theorem gen_lengths_monotone : forall maxBits codes lens,
+  StronglySorted N.le (map fst codes) -> gl_correct maxBits codes lens ->
+  forall i j ci cj li lj,
+    nth_error (map fst codes) i = Some ci -> nth_error (map fst codes) j = Some cj ->
+    nth_error (map snd lens) i = Some li -> nth_error (map snd lens) j = Some lj ->
+    ci < cj -> lj <= li.
+Proof. exact gl_correct_monotone. Qed.
+Print Assumptions gen_lengths_monotone.
+
+(* GeneratePrefixes accepts exactly the sorted, non-zero, complete length assignments ... *)
+Theorem gen_prefixes_accepts_exactly_complete_codes : forall codes,
+  (2 <= length codes)%nat ->
+  ((exists out, gen_prefixes codes = GPOk out) <->
+   (strictly_increasing codes None = true /\ lens_pos codes /\ complete codes = true)).
+Proof. exact gen_prefixes_ok_iff. Qed.
+Print Assumptions gen_prefixes_accepts_exactly_complete_codes.
+
+(* ... and what it returns is the canonical code of RFC 1951 3.2.2 (bit-reversed into reading
+   order), prefix-free and complete in reading order: [valid_code] *)
+Theorem gen_prefixes_yields_the_canonical_code : forall codes out,
+  (2 <= length codes)%nat -> gen_prefixes codes = GPOk out -> valid_code out.
+Proof. exact gen_prefixes_valid. Qed.
+Print Assumptions gen_prefixes_yields_the_canonical_code.
+
+(* the encoder pipeline: the lengths GenerateLengths produces, sorted by symbol, are accepted
+   by GeneratePrefixes, with every length within the limit *)
+Theorem gen_lengths_output_is_accepted_by_gen_prefixes : forall maxBits codes,
+  (2 <= length codes)%nat ->
+  StronglySorted N.le (map fst codes) -> NoDup (map snd codes) ->
+  N.of_nat (length codes) <= 2 ^ maxBits -> N.of_nat (length codes) < 2 ^ 32 ->
+  exists lens, gen_lengths maxBits codes = GLOk lens /\ gl_correct maxBits codes lens /\
+    forall sorted, Permutation lens sorted -> StronglySorted N.lt (map fst sorted) ->
+      exists out, gen_prefixes sorted = GPOk out /\ valid_code out /\ map fst out = sorted /\
+                  forall e, In e out -> 1 <= e_len e <= maxBits.
+Proof. exact gen_lengths_then_prefixes. Qed.
+Print Assumptions gen_lengths_output_is_accepted_by_gen_prefixes.
